@@ -370,6 +370,20 @@ def m_contains(ctx, args, callee):
         p = Str(chr(pc))
     if isinstance(p, (FnItem, Closure)):
         raise Unmodelled('contains(closure)')
+    if isinstance(p, (Agg, Seq)):
+        # a char array / slice pattern: any of the characters
+        chars = p.f if isinstance(p, Agg) else [c.v for c in p.items]
+        outs = []
+        for ch in chars:
+            cc = conc(ch)
+            if cc is None:
+                raise Unmodelled('contains([symbolic char])')
+            t = Str(chr(cc))
+            if s.term is not None:
+                outs.append(z3.Contains(s.z3term(), t.z3term()))
+            else:
+                outs.append(lift_bool(ctx, lambda a, b: b in a, s, t))
+        return Or(outs) if outs else BoolVal(False)
     p = as_str(ctx, p)
     if s.term is not None or p.term is not None:
         return z3.Contains(s.z3term(), p.z3term())
